@@ -663,3 +663,40 @@ Lemma repaired_on_legacy_witnesses :
   equal depth1 [] = false /\ equal [] depth1 = false /\
   equal (pts1 1) (pts1 qband) = false /\ equal (pts1 qband) (pts1 1) = false.
 Proof. repeat split; vm_compute; reflexivity. Qed.
+
+(* ------------------------------------------------------------------ 8. the answer depends on the current content only *)
+(* same content: the same parts are present, every dict-like part has the same lookups (whatever the
+   insertion order, i.e. whatever sequence of operations produced the object), the same point array *)
+Definition part_same (x y : part) : Prop :=
+  match x, y with
+  | PMap m, PMap m' => forall k, lookup k m = lookup k m'
+  | PPts c r, PPts c' r' => c = c' /\ r = r'
+  | _, _ => False
+  end.
+Definition ds_same (a a' : dataset) : Prop := forall p, orel part_same (get p a) (get p a').
+
+Lemma part_rel_same pc nc se x x' y y' : part_same x x' -> part_same y y' ->
+  (part_rel pc nc se x y <-> part_rel pc nc se x' y').
+Proof.
+  destruct x as [m|c r], x' as [m'|c' r'], y as [n|d s], y' as [n'|d' s']; cbn; try tauto.
+  - intros H1 H2. unfold map_rel. split; intros H k; specialize (H k).
+    + rewrite <- H1, <- H2; exact H.
+    + rewrite H1, H2; exact H.
+  - intros [-> ->] [-> ->]. tauto.
+Qed.
+
+Lemma ds_rel_same pc nc se a a' b b' : ds_same a a' -> ds_same b b' ->
+  (ds_rel pc nc se a b <-> ds_rel pc nc se a' b').
+Proof.
+  intros Ha Hb. unfold ds_rel. split; intros H p; specialize (H p); specialize (Ha p); specialize (Hb p);
+    destruct (get p a) as [x|], (get p a') as [x'|], (get p b) as [y|], (get p b') as [y'|]; cbn in *; try tauto;
+    first [ apply (proj1 (part_rel_same pc nc se _ _ _ _ Ha Hb)); exact H
+          | apply (proj2 (part_rel_same pc nc se _ _ _ _ Ha Hb)); exact H ].
+Qed.
+
+Theorem equal_content_only a a' b b' : wf_ds a -> wf_ds a' -> wf_ds b -> wf_ds b' ->
+  ds_same a a' -> ds_same b b' -> equal a b = equal a' b'.
+Proof.
+  intros Wa Wa' Wb Wb' Ha Hb. apply bool_eq_of_iff. rewrite !equal_iff by assumption.
+  apply ds_rel_same; assumption.
+Qed.
